@@ -238,6 +238,17 @@ func c12GenSection(fixdir string) []c12kit.Case {
 		muts = append(muts, c12kit.Truncations(name, sec, fields, rng, ev.Pick(10, 200))...)
 		muts = append(muts, c12kit.HeaderSweep(name, sec, 0, 44)...)
 		muts = append(muts, c12kit.BitFlips(name, sec, rng, ev.Pick(40, 2000))...)
+		// length prefixes that are not a valid uvarint at all: overflowing (10th byte > 1), 11 bytes long, unterminated
+		for vi, v := range [][]byte{
+			{0xff, 0xff, 0xff, 0xff, 0xff, 0xff, 0xff, 0xff, 0xff, 0x7f},
+			{0x80, 0x80, 0x80, 0x80, 0x80, 0x80, 0x80, 0x80, 0x80, 0x02},
+			{0xff, 0xff, 0xff, 0xff, 0xff, 0xff, 0xff, 0xff, 0xff, 0xff, 0x01},
+			{0x80, 0x80, 0x80, 0x80, 0x80, 0x80, 0x80, 0x80, 0x80, 0x80, 0x80, 0x80},
+			{0x80, 0x00}, {0xff, 0x00},
+		} {
+			d := append(append([]byte{}, v...), sec[vn:]...)
+			muts = append(muts, c12kit.Mut{Label: fmt.Sprintf("%s/section.length=varint-variant-%d", name, vi), Class: fmt.Sprintf("section.length|malformed-varint-%d", vi), Data: d})
+		}
 		for _, m := range muts {
 			out = append(out, c12kit.Case{Entry: "section", Label: m.Label, Class: m.Class, In: m.Data, Aux: aux})
 		}
@@ -270,6 +281,25 @@ func c12DriveSection(c *c12kit.Case, s *c12kit.Stepper) {
 			_, err := readNodeFromReaderAtWithOffsetAndSize(c12RA{bytes.NewReader(in)}, nil, 0, l)
 			return err
 		})
+	}
+	// the path of an epoch that runs on the legacy offset-only CID index: the section size is read from the
+	// CAR itself and handed to the readers
+	{
+		var size uint64
+		if s.Do("main.readNodeSizeFromReaderAtWithOffset", func() (err error) {
+			// (the CAR continues after the section: pad so that the 10-byte read of the prefix succeeds)
+			size, err = readNodeSizeFromReaderAtWithOffset(bytes.NewReader(append(append([]byte{}, in...), make([]byte, 16)...)), 0)
+			return
+		}) {
+			s.Do("main.readNodeWithKnownSize(size read from the CAR)", func() error {
+				_, err := readNodeWithKnownSize(bufio.NewReader(bytes.NewReader(in)), wanted, size)
+				return err
+			})
+			s.Do("main.readNodeFromReaderAtWithOffsetAndSize(size read from the CAR)", func() error {
+				_, err := readNodeFromReaderAtWithOffsetAndSize(c12RA{bytes.NewReader(in)}, nil, 0, size)
+				return err
+			})
+		}
 	}
 	for _, off := range []uint64{0, 1, uint64(len(in)), 1 << 62, ^uint64(0)} {
 		off := off
